@@ -72,6 +72,20 @@ def make_input(rng, metric, style, n, dim):
     M = M.astype(np.float32)
     if style == "csr32":
         M.sort_indices(); return M, "f32 c 1 1 1"
+    if style == "csr32dup":
+        # sorted within rows but NOT canonical: some (row, column) positions are stored twice (as matrix products, hand-built CSR
+        # or concatenations leave them) - passes every "is it sorted / is it float32 CSR" test un-copied
+        M.sort_indices()
+        ind, dat, ptr = [], [], [0]
+        for i in range(n):
+            for j in range(M.indptr[i], M.indptr[i + 1]):
+                reps = 2 if rng.random() < 0.25 else 1
+                for _ in range(reps):
+                    ind.append(M.indices[j]); dat.append(M.data[j] / reps)
+            ptr.append(len(ind))
+        D_ = sp.csr_matrix((np.array(dat, dtype=np.float32), np.array(ind, dtype=np.int32), np.array(ptr, dtype=np.int32)), shape=M.shape)
+        D_.has_sorted_indices = True
+        return D_, "f32 c 1 1 1"
     if style == "csr32u":
         return api.unsort_csr(rng, M), "f32 c 1 1 0"
     if style == "csr64":
@@ -87,7 +101,7 @@ class _UserArray(np.ndarray):
 
 _TMPDIRS = []
 
-STYLES = ["f32sub", "f32memmap", "f32c", "f64c", "f32f", "f32strided", "csr32", "csr32u", "csr64", "csc32", "bits", "f64f"]
+STYLES = ["csr32dup", "f32sub", "f32memmap", "f32c", "f64c", "f32f", "f32strided", "csr32", "csr32u", "csr64", "csc32", "bits", "f64f"]
 
 
 def check_case(res, rng, style, metric, update_first=False, tree_init=None, compressed=None):
@@ -97,8 +111,11 @@ def check_case(res, rng, style, metric, update_first=False, tree_init=None, comp
     w = Watch(); w.add("data", X)
     mclass = "bit" if style == "bits" else ("dot" if metric == "dot" else "plain")
     extra = {}
+    if sparse and rng.integers(2) == 0 and X.format == "csr":
+        G = rng.integers(0, n, size=(n, k)).astype(np.int32); G[rng.random((n, k)) < 0.3] = -1      # the documented "unknown" marker
+        extra["init_graph"] = w.add("init_graph", G)
     if not sparse and rng.integers(3) == 0 and metric != "dot":
-        G = rng.integers(0, n, size=(n, k)).astype(np.int32)
+        G = rng.integers(0, n, size=(n, k)).astype(np.int32); G[rng.random((n, k)) < 0.2] = -1
         extra["init_graph"] = w.add("init_graph", G)
         if rng.integers(2):
             extra["init_dist"] = w.add("init_dist", rng.random((n, k)).astype(np.float32))
@@ -168,8 +185,8 @@ def run(res, tier, seed, search):
                 "shuffled histories {prepare, query, update(fresh+replace), pickle, compress}; bytes of every array ever handed in compared "
                 "after every op; alias bit of the model vs np.shares_memory; non-trivial = >= 3 operations completed")
     metrics = {"bits": ["bit_hamming"], "default": ["euclidean", "dot", "cosine", "manhattan"]}
-    others = [s_ for s_ in STYLES if s_ not in ("f32c", "csr32u", "f32sub")]
-    styles = STYLES if tier != "quick" or search else ["f32c", "csr32u", "f32sub"] + [others[(3 * seed + i) % len(others)] for i in range(3)]
+    others = [s_ for s_ in STYLES if s_ not in ("f32c", "csr32u", "f32sub", "csr32dup")]
+    styles = STYLES if tier != "quick" or search else ["f32c", "csr32u", "f32sub", "csr32dup"] + [others[(3 * seed + i) % len(others)] for i in range(3)]
     reps = 1 if tier == "quick" else 3
     for style in styles:
         ms = metrics["bits"] if style == "bits" else metrics["default"]
@@ -189,6 +206,8 @@ def run(res, tier, seed, search):
                 check_case(res, rng, style, m, tree_init=True, compressed=True)
         if style in ("f32sub", "f32memmap"):
             check_case(res, rng, style, "dot")
+        if style in ("csr32u", "csr32dup"):
+            check_case(res, rng, style, "euclidean")
     import shutil
     while _TMPDIRS:
         shutil.rmtree(_TMPDIRS.pop(), ignore_errors=True)
